@@ -94,12 +94,14 @@ SubCells(G, P) == CellsTouching(G, SubNodes(G, P))
 SubFaces(G, P) == FacesWithin(G, SubNodes(G, P))
 Repetitions(G, p, f) == Cardinality({id \in Range(p) : f \in SubFaces(G, PartCells(p, id))})
 LawCover(G, p) ==
-  /\ \A f \in FaceIx(G) : Repetitions(G, p, f) >= 1
+  LET SF == [id \in Range(p) |-> SubFaces(G, PartCells(p, id))] IN
+  /\ UNION {SF[id] : id \in Range(p)} = FaceIx(G)
   /\ \A id \in Range(p) :
-       LET P == PartCells(p, id) IN
-         /\ P \subseteq SubCells(G, P)
-         /\ FacesOfCells(G, P) \subseteq SubFaces(G, P)
-         /\ NeededCells(G, SubFaces(G, P)) \subseteq SubCells(G, P)
+       LET P == PartCells(p, id)
+           SC == SubCells(G, P)
+       IN /\ P \subseteq SC
+          /\ FacesOfCells(G, P) \subseteq SF[id]
+          /\ NeededCells(G, SF[id]) \subseteq SC
 
 (* ------------------------- number of subproblems ------------------------ *)
 CeilDiv(a, b) == (a + b - 1) \div b
@@ -162,13 +164,18 @@ AVal(cat, c) ==                                                                 
   CASE cat = 1 -> <<2, 2, 2, 0, 0, 0>>
     [] cat = 2 -> <<2, 4, 6, 0, 0, 0>>
     [] cat = 3 -> <<2 + 2 * (c % 2), 4, 6, 1, 0, 1>>
+\* the "old" state of an update: "flag": every tensor multiplied by OldScale; "method" with modified cells: OldAdd
+\* (units of 1/2) added to the diagonal entries / Lame parameters of the modified cells
+OldScale == 2
+OldAdd == 2
 \* leading principal minors of the symmetric tensor (in units 1/2, 1/4, 1/8): positive definite
 SPD(t) == /\ t[1] > 0 /\ t[1] * t[2] - t[4] * t[4] > 0
           /\ t[1] * (t[2] * t[3] - t[6] * t[6]) - t[4] * (t[4] * t[3] - t[6] * t[5]) + t[5] * (t[4] * t[6] - t[2] * t[5]) > 0
 LawCatalogue(nc) == \A cat \in 1..NPar : \A c \in 0..(nc - 1) :
   /\ SPD(KVal(cat, c)) /\ SPD(AVal(cat, c)) /\ LVal(cat, c)[1] > 0 /\ LVal(cat, c)[2] >= 0
   \* the modifications used for the "old" state of an update keep the family: doubled / identity added
-  /\ SPD([i \in 1..6 |-> 2 * KVal(cat, c)[i]]) /\ SPD([i \in 1..6 |-> KVal(cat, c)[i] + (IF i <= 3 THEN 2 ELSE 0)])
+  /\ SPD([i \in 1..6 |-> OldScale * KVal(cat, c)[i]]) /\ SPD([i \in 1..6 |-> KVal(cat, c)[i] + (IF i <= 3 THEN OldAdd ELSE 0)])
+  /\ SPD([i \in 1..6 |-> OldScale * AVal(cat, c)[i]]) /\ SPD([i \in 1..6 |-> AVal(cat, c)[i] + (IF i <= 3 THEN OldAdd ELSE 0)])
 
 \* boundary types by rank of the boundary face (ascending face index); "rol": first component Dirichlet, the
 \* others Neumann (vector problems only)
